@@ -194,7 +194,7 @@ func (x *Exec) rangeInit(st *State, fr *Frame, v *ssa.Range) Val {
 		unsup("range over %s", v.X.Type())
 	}
 	m := x.get(st, fr, v.X).(Term)
-	fr.rangeIter[v] = &rangeState{m: m, visited: Term{"((as const (Array Int Bool)) false)", ArrSort(SI, SB)}, ktype: mt.Key(), vtype: mt.Elem()}
+	fr.rangeIter[v] = &rangeState{m: m, visited: Term{"((as const (Array Int Bool)) false)", ArrSort(SI, SB)}, ktype: mt.Key(), vtype: mt.Elem(), seq: len(fr.rangeIter) + 1}
 	return TInt(0)
 }
 
